@@ -369,7 +369,7 @@ class Lib(Builtins):
             return [Res(p, VList(None, None))]
         n = z3.Length(seq.z)
         j = z3.Int(fresh_name('j'))
-        item = from_z3(seq.z[j], seq.elem)
+        item = from_z3(ops.nth(seq.z, j, seq.elem), seq.elem)
         keep, elt, extra = self._elem_eval(ex, g, comp, item, p, node, 'list')
         et = ty_of(elt)
         res = z3.Const(fresh_name('comp'), sort_of(TList(et)))
@@ -406,7 +406,7 @@ class Lib(Builtins):
                 return [Res(p2, exc=VExc('StopIteration'))]
             n = z3.Length(seq.z)
             j = z3.Int(fresh_name('j'))
-            item = from_z3(seq.z[j], seq.elem)
+            item = from_z3(ops.nth(seq.z, j, seq.elem), seq.elem)
             keep, elt, extra = self._elem_eval(ex, g, comp, item, p2, node, 'next')
             out = []
             # no element matches
@@ -418,7 +418,7 @@ class Lib(Builtins):
             # first match at index w
             w = z3.Int(fresh_name('w'))
             p2.add(z3.And(0 <= w, w < n))
-            itemw = from_z3(seq.z[w], seq.elem)
+            itemw = from_z3(ops.nth(seq.z, w, seq.elem), seq.elem)
             keepw, eltw, extraw = self._elem_eval(ex, g, comp, itemw, p2, node, 'next')
             for f in extraw:
                 p2.add(f)
@@ -560,7 +560,7 @@ def _spec_call(self, sp, name, args, ctx):
         return VBytes(fn_aes_dec(args[0].z, args[1].z, args[2].z))
     if name == 'at':
         # at(seq, i): element i of a list without python's negative-index rule (for quantified clauses)
-        return from_z3(args[0].z[args[1].z], args[0].elem)
+        return from_z3(ops.nth(args[0].z, args[1].z, args[0].elem), args[0].elem)
     if name == 'fresh_ref':
         # the object was allocated after the entry state of this contract (old)
         return VBool(args[0].z >= ctx.old_ghost['alloc'].z)
